@@ -106,13 +106,17 @@ theorem inv_procEv (c : Core) (ev : AEv) (p q : Bool) (h : InvB c = true) (hp : 
         | reqData v =>
           exact inv_reqBody _ _ (Or.inl ⟨v, rfl⟩) _ c.draining (by simpa using h) hp hb' hpt' (by simpa [grammarOk] using hg) rfl hq
         | reqEOM ne =>
-          exact inv_reqBody _ _ (Or.inr ⟨ne, rfl⟩) _ c.draining (by simpa using h) hp hb' hpt' (by simpa [grammarOk] using hg) rfl hq
+          exact inv_reqBody _ _ (Or.inr (Or.inl ⟨ne, rfl⟩)) _ c.draining (by simpa using h) hp hb' hpt' (by simpa [grammarOk] using hg) rfl hq
+        | reqTrailers =>
+          exact inv_reqBody _ _ (Or.inr (Or.inr rfl)) _ c.draining (by simpa using h) hp hb' hpt' (by simpa [grammarOk] using hg) rfl hq
         | respHeaders e k v =>
           exact inv_respEvent _ _ (Or.inl ⟨e, k, v, rfl⟩) _ c.draining (by simpa using h) hp hb' hpt' (by simpa [grammarOk] using hg) rfl hq
         | respData v =>
           exact inv_respEvent _ _ (Or.inr (Or.inl ⟨v, rfl⟩)) _ c.draining (by simpa using h) hp hb' hpt' (by simpa [grammarOk] using hg) rfl hq
         | respEOM ne =>
-          exact inv_respEvent _ _ (Or.inr (Or.inr ⟨ne, rfl⟩)) _ c.draining (by simpa using h) hp hb' hpt' (by simpa [grammarOk] using hg) rfl hq
+          exact inv_respEvent _ _ (Or.inr (Or.inr (Or.inl ⟨ne, rfl⟩))) _ c.draining (by simpa using h) hp hb' hpt' (by simpa [grammarOk] using hg) rfl hq
+        | respTrailers =>
+          exact inv_respEvent _ _ (Or.inr (Or.inr (Or.inr rfl))) _ c.draining (by simpa using h) hp hb' hpt' (by simpa [grammarOk] using hg) rfl hq
         | hookDone _ _ => simp [grammarOk] at hg
         | connDone _ => simp [grammarOk] at hg
         | openDone _ => simp [grammarOk] at hg
